@@ -200,7 +200,11 @@ def main(tier, seed, only=None):
             info[name] = len(units)
             tasks = [(cfg, ch) for cfg in cs for ch in pool.chunks(units, max(300, len(units) // 16 + 1))]
             if name.startswith("tree(CORE"):
-                tasks += [(cfg, ch) for cfg in smt_cs for ch in pool.chunks(units, max(300, len(units) // 16 + 1))]
+                # thorough: the full depth-4 tree under every solver option set is ~1 h on its own; two sets run on
+                # it, the others on its depth-3 sub-tree
+                for cfg in smt_cs:
+                    us = units if (tier == "quick" or cfg in smt_cs[:2]) else [b for b in units if len(b) <= 3]
+                    tasks += [(cfg, ch) for ch in pool.chunks(us, max(300, len(us) // 16 + 1))]
             pool.run_tasks(tasks, work_a, setup=driver.setup_ctx, unit_timeout=30, on_result=on_a)
         chk.cov["sets"] = info
         chk.cov["configs"] = [list(c) for c in cs] + [list(c) for c in smt_cs]
